@@ -130,13 +130,18 @@ def _from_rel(r: int, op) -> bool:
 
 
 class AbstractEval:
-    def __init__(self, region: Dict[str, Any]):
+    def __init__(self, region: Dict[str, Any], canon=None):
         self.region = region
+        self.canon = canon  # optional: maps a definition-site term to the text of the atom it denotes
 
     def ev(self, node: ast.AST) -> Any:
         txt = ast.unparse(node)
         if txt in self.region:
             return self.region[txt]
+        if self.canon is not None and isinstance(node, ast.Name):
+            c = self.canon(node.id)
+            if c is not None and c in self.region:
+                return self.region[c]
         if isinstance(node, ast.Constant):
             return node.value
         if isinstance(node, ast.UnaryOp):
@@ -187,9 +192,9 @@ class Cascade(PathAnalysis):
     fallible = False
     prune = False
 
-    def __init__(self, fn_node, region: Dict[str, Any]):
+    def __init__(self, fn_node, region: Dict[str, Any], canon=None):
         super().__init__(fn_node)
-        self.aev = AbstractEval(region)
+        self.aev = AbstractEval(region, (lambda term: canon(term, self.defs)) if canon is not None else None)
 
     def cond(self, state: PState, test, pol: bool):
         t = subst(test, state)
@@ -211,10 +216,10 @@ class Cascade(PathAnalysis):
             return ("<opaque>", ast.unparse(t)[:80])
 
 
-def decide(fn_node, region: Dict[str, Any]):
+def decide(fn_node, region: Dict[str, Any], canon=None):
     """Run `fn_node` under `region`; returns the list of (kind, value, node):
     kind in {'return', 'raise', 'falloff'}."""
-    c = Cascade(fn_node, region)
+    c = Cascade(fn_node, region, canon)
     out: Out = c.run(fn_node, {c.initial()})
     res = []
     for st, node in out.ret:
